@@ -30,6 +30,7 @@ Step == l' = l + 1 /\ TLCSet(1, l)
 Fresh == [ started |-> {}, retd |-> {}, done |-> {}, seqOf |-> <<>>,
            replyGood |-> {}, replyBad |-> {}, anyBad |-> FALSE, connDown |-> FALSE,
            closeCalled |-> FALSE, closeReturned |-> FALSE, retBeforeClose |-> {},
+           closeEffective |-> FALSE,   \* Close() was called on a session that was not already being disconnected
            hooks |-> 0, notifiedSeen |-> FALSE,
            inSent |-> {},       \* inbound CALL frames sent by the raw peer: <<seq, arg>>
            entered |-> {},      \* <<seq, arg>> of handler activations
@@ -92,7 +93,7 @@ HEnter ==
   /\ Is("HEnter")
   /\ G("C03", (\E p \in st.inSent : p[1] = Ev.seq) /\ ~(\E p \in st.entered : p[1] = Ev.seq))
   /\ G("C01", <<Ev.seq, Ev.arg>> \in st.inSent /\ Ev.kind = "call" /\ Ev.meta = "m-" \o Ev.arg)
-  /\ G("C07", ~st.closeReturned)
+  /\ G("C07", ~(st.closeReturned /\ st.closeEffective))
   /\ st' = [st EXCEPT !.entered = @ \cup {<<Ev.seq, Ev.arg>>}, !.hname = @ \cup {<<Ev.h, Ev.seq>>}]
   /\ Step
 
@@ -121,7 +122,7 @@ WireEv ==
 CloseCall ==
   /\ Is("CloseCall")
   /\ st' = IF st.closeCalled THEN st
-           ELSE [st EXCEPT !.closeCalled = TRUE,
+           ELSE [st EXCEPT !.closeCalled = TRUE, !.closeEffective = ~(st.connDown \/ st.anyBad),
                            \* (a Close() on a session that is already being disconnected is a no-op)
                            !.enteredAtClose = IF st.connDown \/ st.anyBad THEN {}
                                               ELSE {p[1] : p \in st.entered} \ st.exited,
